@@ -30,11 +30,28 @@ PROGRAMS = {
     # redundant parentheses nested some hundred levels deep (no nesting of functors or goals: the documented
     # limits are not involved)
     "parens": "deep(X) :- X = %sa%s, ok(%sX%s).\nok(_).\n" % ("(" * 400, ")" * 400, "(" * 350, ")" * 350),
+    # terms that print alike: a quoted atom spelling the arguments of a compound in the same source
+    "twins": "pair('a,b').\npair(a,b).\nt(['x,y'],[x,y]).\ng('f(a)') :- g(f(a)), h('f(a)'), h(f(a)).\nk(X) :- X = w(a,['b,c']) ; X = w(a,[b,c]).\n",
     "bad": "foo(a) :- ,.\n",
     "bad2": "ok(a).\nnot closed(\n",
     "noncallable": "cat(tom) :- 1.\n",
 }
-ABSTRACT = {"plain": ["plain", "uni", "parens"], "nl": ["nl", "cr", "nltrail"], "bad": ["bad", "bad2", "noncallable"]}
+def _big_source():
+    """more than 128 KiB with a two-byte character astride each 64 KiB boundary (a reader that decodes its input
+    block by block trips over it)"""
+    out = b""
+    for boundary in (65536, 131072):
+        while len(out) < boundary - 400:
+            out += b"fact(number_%d).\n" % len(out)
+        pad = boundary - 1 - len(out) - len(b"q('")
+        out += b"q('" + b"z" * pad + "\u00e9').\n".encode("utf-8")
+    out += b"last(one).\n"
+    assert out[65535:65537] == "\u00e9".encode("utf-8") and out[131071:131073] == "\u00e9".encode("utf-8")
+    return out.decode("utf-8")
+
+
+PROGRAMS["big"] = _big_source()
+ABSTRACT = {"plain": ["plain", "uni", "parens", "twins"], "nl": ["nl", "cr", "nltrail"], "bad": ["bad", "bad2", "noncallable"]}
 
 
 def lines_of(data):
@@ -134,6 +151,13 @@ def run(tier, seed):
         many_names = ["m%04d" % i for i in range(NMANY)]
         jobs.append(("module", [], many_names, False, -1, k + 1))
         jobs.append(("module", [], many_names, True, 3, k + 2))
+        # a large source through every way of reading it
+        jobs.append(("module", [], ["big"], False, 0, k + 3))
+        jobs.append(("module", ["debug-generator"], ["plain", "big"], True, 1, k + 4))
+        jobs.append(("yldpc", [], ["big"], False, -1, k + 5))
+        for j, fl in enumerate(([], ["debug-generator"], ["debug-parser"], ["d"])):
+            jobs.append(("module", fl, ["twins"], False, -1, k + 6 + j))
+            jobs.append(("module", fl, ["twins"], True, 0, k + 10 + j))
         recs = []
         with concurrent.futures.ThreadPoolExecutor(16) as ex:
             futs = [(j, ex.submit(run_cli, scratch, j[0], j[1], j[2], j[3], j[4], j[5], len(j[2]) > 100)) for j in jobs]
